@@ -67,6 +67,13 @@ fn replay_known(path: &str, prop: &str) {
 fn main() {
     let args: Vec<String> = env::args().collect();
     imp::install_panic_hook();
+    // a change that makes the front end allocate without end (a recovery loop that adds a report per round) must end
+    // this process, not the machine: address space capped at 24 GiB (the workers' stacks reserve 8 GiB of it); the
+    // allocation failure aborts the process and ./check isolates the input like any other crash
+    unsafe {
+        let lim = libc::rlimit { rlim_cur: 24 << 30, rlim_max: 24 << 30 };
+        libc::setrlimit(libc::RLIMIT_AS, &lim);
+    }
     match args.get(1).map(|s| s.as_str()) {
         Some("extract") => extract::run(&args[2]),
         Some("lex") => println!("{}", imp::lex_record(&args[2])),
